@@ -8,6 +8,7 @@ from ..common import Outcome, Violation, drive, seed
 from ..refmodel import Invalid, ev
 
 PID = 'C14'
+LEVEL = 'fault_enumeration'
 RULE = ('(1) bounded-exhaustive: sources of n <= 5 (quick 4) examples (list and dict) x EVERY subset of failing '
         'positions x raised type (FilterException, VErrA, VErrB<VErrA, VErrC) x catch set (default, VErrA, (VErrA, '
         'VErrC), Exception) x pipeline shape (raising map directly below catch, below a map, below a reversing '
